@@ -1,9 +1,9 @@
-(* C05_Corr.v — correspondence vocabulary for C05: a case is an op sequence together
-   with the observations the implementation produced.  Evaluated by vm_compute in the
-   generated cases files. *)
+(* C05_Corr.v — correspondence vocabulary for C05: a case is a sequence of (possibly observer-
+   overlapped) operations together with the observations the implementation produced.
+   Evaluated by vm_compute in the generated cases files. *)
 From Verif Require Import Common C05_Model C05_Spec.
 
-Definition case := (list op * list obs)%type.
+Definition case := (list xop * list xobs)%type.
 
 Definition obs_eqb (a b : obs) : bool :=
   list_eqb otask_eqb (o_items a) (o_items b)
@@ -15,10 +15,15 @@ Definition obs_eqb (a b : obs) : bool :=
   && otask_eqb (o_ret a) (o_ret b)
   && Bool.eqb (o_crash a) (o_crash b).
 
-Definition model_obs (c : case) : list obs := run (fst c).
-Definition agrees (c : case) : bool := list_eqb obs_eqb (model_obs c) (snd c).
+Definition xobs_eqb (a b : xobs) : bool :=
+  obs_eqb (x_obs a) (x_obs b)
+  && list_eqb otask_eqb (x_walk a) (x_walk b)
+  && list_eqb otask_eqb (x_rets a) (x_rets b).
+
+Definition model_obs (c : case) : list xobs := xrun (fst c).
+Definition agrees (c : case) : bool := list_eqb xobs_eqb (model_obs c) (snd c).
 
 Definition mismatches (cs : list case) : list N := indices_where (fun c => negb (agrees c)) cs.
 Definition spec_violations (cs : list case) : list N :=
-  indices_where (fun c => negb (P (fst c) (snd c))) cs.
-Definition trigger_F14 (cs : list case) : list N := indices_where (fun c => T (fst c)) cs.
+  indices_where (fun c => negb (XP (fst c) (snd c))) cs.
+Definition trigger_F14 (cs : list case) : list N := indices_where (fun c => XT (fst c)) cs.
